@@ -57,6 +57,10 @@ int disasm_dotnet(
           return 2;
       }
     }
+
+    // Unknown two byte opcode: don't look the second byte up in the table
+    // of the one byte opcodes.
+    return 2;
   }
 
   n = 0;
